@@ -39,6 +39,9 @@ SITE_CLASS = {
     "deque.contains@ready": ["fs_assert", "st_contains", "sch_contains"], "deque.append@ready": ["fs_append", "cyc_append"],
     "deque.appendleft@ready": ["fs_appendleft"], "deque.popleft@ready": ["cyc_pop"], "deque.len@ready": ["run_len"],
     "deque.append@calls": ["clt_append"], "deque.popleft@calls": ["clt_pop"],
+    # finding a queue EMPTY by an emptiness test is the modelled step "the consumer finds the queue empty" (in the code as it stands: a
+    # popleft() that raises IndexError / the len() test of run()); finding it non-empty changes nothing and has no step of its own
+    "deque.len0@calls": ["clt_pop"], "deque.len0@ready": ["run_len", "cyc_pop"],
     "new@clt": ["cl_create"], "new@st": ["sch_spawn"], "new@sync": ["se_create"],
 }
 SILENT = ["cl_isNone"]       # reads `_callLaterTask` under the scheduler's lock (every write is under that lock): no event of its own
@@ -874,6 +877,10 @@ class C07(Check):
             elif kind == "R":
                 cls = "%s@%s" % (ev[2], ev[3])
                 sites = SITE_CLASS.get(cls)
+                if not sites and ev[2] == "deque.len" and ev[3] == "calls":
+                    continue            # the call queue was found NON-empty: no effect, and the popleft that follows is validated
+                if ev[2] == "deque.len" and ev[3] == "ready" and sites:
+                    sites = sites + ["skip"]      # the ready queue found NON-empty: run()'s loop test where the model has it, else no step
                 out.append([tid, "|".join(sites) if sites else "unmapped:%s in %s:%s" % (cls, ev[4], ev[5]), to])
             elif kind == "P":
                 op, q, ln = ev[2], ev[3], ev[4]
